@@ -40,7 +40,7 @@ def norm(forest):
     out = []
     for n in forest:
         if n[0] == "E":
-            out.append(["E", n[1], n[2], sorted([[list(k), v] for k, v in n[3]]), norm(n[4])])
+            out.append(["E", n[1], n[2], sorted([[list(k), v] for k, v in n[3]], key=lambda kv: (kv[0][0] or "", kv[0][1])), norm(n[4])])
         elif n[0] == "D":
             out.append(["D", n[1], n[2] or "", n[3] or ""])
         else:
@@ -94,7 +94,15 @@ class C07(Plugin):
         return []
 
     def known_witnesses(self):
-        return {}
+        base = {"quote_attr_values": "legacy", "quote_char": None, "minimize_boolean_attributes": True,
+                "use_trailing_solidus": False, "space_before_trailing_solidus": True, "escape_lt_in_attrs": False,
+                "escape_rcdata": False, "resolve_entities": True, "alphabetical_attributes": False,
+                "omit_optional_tags": True}
+        w = lambda seed, **kw: dict({"seed": seed, "opts": base, "tree": "etree", "depth": 2, "pre_newline": False,
+                                     "bool_values": False, "xlink": False}, **kw)
+        return {"C07-leading-newline-in-pre-textarea": w(494, pre_newline=True),
+                "C07-boolean-attribute-value-dropped": w(433, bool_values=True),
+                "C07-namespaced-attribute-prefix-dropped": w(887, xlink=True)}
 
     def forest(self, case):
         g = conforming.Gen(random.Random(case["seed"]), pre_newline=case["pre_newline"], bool_values=case["bool_values"],
@@ -135,7 +143,8 @@ class C07(Plugin):
     def oracle(self, case, out):
         import html5lib
         forest, txt, errs = self._last
-        p = html5lib.HTMLParser(tree=html5lib.getTreeBuilder(case["tree"]))
+        tb = html5lib.getTreeBuilder("etree", fullTree=True) if case["tree"] == "etree" else html5lib.getTreeBuilder("dom")
+        p = html5lib.HTMLParser(tree=tb)
         doc = p.parse(txt)
         back = trees.dom_forest(doc) if case["tree"] == "dom" else trees.et_forest(doc)
         a, b = norm(forest), norm(trees.coalesce(back))
@@ -157,8 +166,8 @@ class C07(Plugin):
 
     def classify(self, cls, case, detail):
         return {"leading-newline-in-pre-textarea": "C07-leading-newline-in-pre-textarea",
-                "boolean-attribute-value-dropped": "C08-boolean-attribute-value-dropped",
-                "namespaced-attribute-prefix-dropped": "C08-namespaced-attribute-prefix-dropped"}.get(cls)
+                "boolean-attribute-value-dropped": "C07-boolean-attribute-value-dropped",
+                "namespaced-attribute-prefix-dropped": "C07-namespaced-attribute-prefix-dropped"}.get(cls)
 
     def nontrivial_key(self, case, out):
         return "%d|%s" % (case["seed"], json.dumps(case["opts"], sort_keys=True)) if out and len(out[1]) > 60 else None
